@@ -245,6 +245,11 @@ async def _reprepare_and_update_cache(
     preparer_outcome = await preparer(cache_key, copy.deepcopy(cached.spec))
     prepare_finished_at = time.monotonic()
 
+    if __CACHE.get(resource_key) is not cached:
+        # The resource was offered again (or deleted) while it was being
+        # prepared; that newer state wins over this stale re-prepare.
+        return
+
     if is_unwrapped_ok(preparer_outcome):
         prepared_resource, subscriptions = preparer_outcome
     else:
